@@ -880,7 +880,11 @@ async fn one_config(a: Args, idx: usize, proto: Proto, transport: Transport) -> 
     for len in [0usize, 1, 2, 15, 16, 17, 31, 32, 33, 47, 48, 49, 50, 55, 56, 57, 58, 59, 60, 61, 62, 63, 64, 65, 100, 300, 2000, 70000] {
         wires.push(("random-bytes".into(), rng.bytes(len)));
     }
-    let echo_addr = Addr::V4([127, 0, 0, 1], target.port);
+    // requests the server accepts must get an answer to encode: a target that speaks first (200 bytes) and echoes,
+    // and for datagram associations the UDP echo target
+    let greeter = super::c12::start_greeter().await;
+    let echo_addr = Addr::V4([127, 0, 0, 1], greeter.as_ref().map(|g| g.0).unwrap_or(target.port));
+    let dgram_addr = Addr::V4([127, 0, 0, 1], udp_target.as_ref().map(|t| t.port).unwrap_or(target.port));
     let n_mut = if a.thorough { 60 } else { 16 };
     for k in 0..n_mut {
         let vopt = *rng.pick(&vmess::VALID_OPTION_MASKS);
@@ -930,7 +934,23 @@ async fn one_config(a: Args, idx: usize, proto: Proto, transport: Transport) -> 
         };
         server_malformed_wires(&cfg, false, &echo_addr, now, &mut rng, &mut push);
         if !matches!(proto, Proto::Ss(_)) {
-            server_malformed_wires(&cfg, true, &echo_addr, now, &mut rng, &mut push);
+            server_malformed_wires(&cfg, true, &dgram_addr, now, &mut rng, &mut push);
+        }
+    }
+    // VMess: requests that are valid in every respect but carry an unusual option mask (none of the known bits, unknown
+    // bits only, all bits) - always presented, not sampled: the server accepts them, dials the greeter and has to encode
+    // an answer for a request whose options it has never been shown by its own client
+    if let Proto::Vmess(sec) = proto {
+        let ck = cfg.ref_cmd_keys()[cfg.client_uuid];
+        for opt in [0x00u8, 0x20, 0x40, 0x80, 0xE0, 0x02, 0x03, 0x08, 0x10, 0x1F, 0xFF] {
+            for cmd in [vmess::CMD_TCP, vmess::CMD_UDP] {
+                let addr = if cmd == vmess::CMD_UDP { dgram_addr.clone() } else { echo_addr.clone() };
+                let h = vmess::RequestHeader { version: 1, body_iv: rng.arr(), body_key: rng.arr(), resp_v: 9, option: opt, padding: rng.bytes(3), security: sec, reserved: 0, command: cmd, addr };
+                let aid = vmess::make_auth_id(&ck, now as i64, rng.next_u32());
+                let mut w = vmess::seal_request_header(&ck, &h, &aid, &rng.arr());
+                w.extend_from_slice(&rng.bytes(40));
+                wires.push(("valid-request-with-unusual-option-mask".into(), w));
+            }
         }
     }
     let sem = Arc::new(tokio::sync::Semaphore::new(8));
@@ -1185,6 +1205,9 @@ async fn one_config(a: Args, idx: usize, proto: Proto, transport: Transport) -> 
     }
     if idx == 0 {
         rep.sample(json!({"config": cfgname, "part_a": {"hostile_streams": wires.len(), "classes": wires.iter().map(|w| w.0.split(':').next().unwrap_or("").to_string()).collect::<std::collections::BTreeSet<_>>()}, "part_b": "hostile reference server: close / reset / silence / random / bit-flipped, truncated, garbage-continued and authenticated-malformed answers; malformed datagram frames and datagrams", "monitors": "panic recorder of osv-node, liveness, canary flow and datagram after each part"}));
+    }
+    if let Some(g) = &greeter {
+        g.1.abort();
     }
     drop(target);
     drop(pair);
